@@ -75,6 +75,26 @@ def check(tier):
             j = rng.randrange(len(t))
             t[j] = rng.choice(big)
         cases.append(("C20.perm",) + perm_case(s, tuple(t)))
+    # lengths around every small integer literal of the header (a length threshold at which the algorithm switches
+    # strategy), and a band of longer lengths anyway; few distinct values, so equal elements meet at every split point
+    src = re.sub(r"//[^\n]*|/\*.*?\*/", " ", open(os.path.join(common.CORE_INC, HDR)).read(), flags=re.S)
+    lits = sorted({int(x) for x in re.findall(r"(?<![\w.])(\d{1,3})(?:u|ul|UL|U)?(?![\w.])", src) if 2 <= int(x) <= 64})
+    lengths = set(range(13, 21)) | {32, 33}
+    for L in lits:
+        lengths |= {L - 1, L, L + 1, 2 * L, 2 * L + 1}
+    lengths = sorted(n for n in lengths if 2 <= n <= 130)
+    for n in lengths:
+        for rep_i in range(3 if tier == "quick" else 8):
+            alpha = (2, 3, 5)[rep_i % 3]
+            s = tuple(rng.randrange(alpha) if rng.random() < 0.9 else rng.choice(big) for _ in range(n))
+            cases.append(("C20.sort",) + sort_case(s))
+            t = list(s)
+            rng.shuffle(t)
+            cases.append(("C20.perm",) + perm_case(s, tuple(t)))
+            t2 = list(t)
+            t2[rng.randrange(n)] = t2[rng.randrange(n)]          # usually changes one multiplicity
+            cases.append(("C20.perm",) + perm_case(s, tuple(t2)))
+            cases.append(("C20.perm",) + perm_case(s, tuple(t[:-1])))
     cases.append(("C20.perm",) + nontype_case("int, std::index_sequence<>"))
     cases.append(("C20.perm",) + nontype_case("std::index_sequence<0>, void"))
 
@@ -118,12 +138,12 @@ def check(tier):
                     rep.rules[rid]["violations"] += 1
             else:
                 rep.ok(rid, inst, sample={"case": inst, "witness": code} if (j % 977 == 0) else None)
-    rep.extra["bounds"] = {"sort_alphabet": 5, "sort_maxlen": sl, "perm_alphabet": pa, "perm_maxlen": pl, "seeded_long": nrand}
+    rep.extra["bounds"] = {"sort_alphabet": 5, "sort_maxlen": sl, "perm_alphabet": pa, "perm_maxlen": pl, "seeded_long": nrand, "threshold_literals_in_header": lits, "long_lengths": lengths}
     rep.assumptions = ["g++ 12 -std=c++20 evaluates templates per the standard", "oracle: Python sorted / collections.Counter"]
     return rep.finish(
         "Every sequence of length <= %d over {0..4} is sorted at compile time and compared (is_same) with Python's sorted(); "
         "every ordered pair of sequences of length <= %d over {0..%d} is put through is_permutation and compared with multiset equality; "
-        "plus %d seeded long sequences with 64-bit boundary values. One static_assert per case; any diagnostic on its line is a violation. "
+        "plus %d seeded long sequences with 64-bit boundary values, and few-valued sequences of the lengths around every small integer literal of the header (strategy thresholds) and of lengths 13..20, 32, 33. One static_assert per case; any diagnostic on its line is a violation. "
         "Nothing is executed: the C++ type checker evaluates the type-level program." % (sl, pl, pa - 1, nrand),
         "g++ -std=c++20 -fsyntax-only <generated static_assert units> (bin/vcheck C20)",
         ["g++ 12 template instantiation", "python sorted/Counter oracle"],
